@@ -1233,6 +1233,8 @@ def run_lists(case):
             f(case['k'], case['n'], case['m'], seed=case['rseed'], planted_assignments=planted, formula_class=_cls(case['cls']))
             if planted:
                 labels.append('planted-nonempty')
+            if any(list(a) != sorted(a, key=abs) for a in case['data']):
+                labels.append('planted-not-in-variable-order')
         elif what == 'shuffle':
             F = build_formula({'kind': 'hand', 'groups': [['anon', case['n']]], 'clauses': case['clauses'], 'desc': None})
             SF = sn.snap_formula(F)
@@ -1363,6 +1365,10 @@ def strat_lists(draw):
             a = [(v if (bits >> (v - 1)) & 1 else -v) for v in range(1, n + 1)]
             if what == 'planted-kcnf' and draw(_BOOL):
                 a = a[:draw(st.integers(1, n))]                       # partial assignment
+            if draw(_BOOL):
+                a = list(draw(st.permutations(a)))                    # literals in any order
+                if draw(_ONE_IN_3):
+                    a.append(a[draw(st.integers(0, len(a) - 1))])    # one literal listed twice
             data.append(a)
         case['data'] = data
         case['inner'] = draw(_INNER)
@@ -1425,8 +1431,8 @@ SUBCHECKS = [
              required_labels=B_METHODS + ['CNF', 'OPB', 'list', 'tuple', 'op!=', 'op<', 'op>', 'op==', 'op<=', 'op>=',
                                           'caller-list-modified', 'indexed-access', 'rejected', 'repeated-literal', 'empty']),
     SubCheck('lists', run_lists, strategy=strat_lists, quick=4000, thorough=150000,
-             rule="charges of TseitinFormula (short/exact/long; ints, bools, floats, integers beyond 64 bits, mixed; list/tuple; cnfgen graph and networkx graph incl. the foreign-object dimensions of the `graphs` sub-check), pattern of bipartite_shift (list/tuple; unsorted, repeated, negative offsets; the returned graph is changed afterwards), planted assignments of RandomKCNF/RandomKXOR (outer list/tuple/dict-with-assignments-as-keys x inner list/tuple/set/frozenset/dict keyed by literal with list values), explicit flips/permutations of Shuffle (valid and invalid), ranges of new_block, lengths of VanDerWaerden, nested pair lists of add_edges_from on Graph/DirectedGraph/BipartiteGraph (list/tuple x list/tuple) and nested constraint lists of OPB.add_constraints_from (list/tuple of constraint lists of list/tuple pairs); oracle: argument deep-identical (element values, element types, container types, dictionary order) after the call, also after a ValueError, and for the two nested kinds the graph/formula is unchanged when the caller rewrites his inner lists afterwards; non-trivial: >=2 elements and not rejected",
-             required_labels=LIST_WHATS + ['list', 'tuple', 'pattern-unsorted', 'planted-nonempty', 'charges-short', 'charges-long',
+             rule="charges of TseitinFormula (short/exact/long; ints, bools, floats, integers beyond 64 bits, mixed; list/tuple; cnfgen graph and networkx graph incl. the foreign-object dimensions of the `graphs` sub-check), pattern of bipartite_shift (list/tuple; unsorted, repeated, negative offsets; the returned graph is changed afterwards), planted assignments of RandomKCNF/RandomKXOR (literals in variable order or in any order, sometimes one listed twice; outer list/tuple/dict-with-assignments-as-keys x inner list/tuple/set/frozenset/dict keyed by literal with list values), explicit flips/permutations of Shuffle (valid and invalid), ranges of new_block, lengths of VanDerWaerden, nested pair lists of add_edges_from on Graph/DirectedGraph/BipartiteGraph (list/tuple x list/tuple) and nested constraint lists of OPB.add_constraints_from (list/tuple of constraint lists of list/tuple pairs); oracle: argument deep-identical (element values, element types, container types, dictionary order) after the call, also after a ValueError, and for the two nested kinds the graph/formula is unchanged when the caller rewrites his inner lists afterwards; non-trivial: >=2 elements and not rejected",
+             required_labels=LIST_WHATS + ['list', 'tuple', 'pattern-unsorted', 'planted-nonempty', 'planted-not-in-variable-order', 'charges-short', 'charges-long',
                                            'charges-exact', 'rejected', 'charges-nx-foreign', 'caller-pairs-modified',
                                            'caller-constraints-modified', 'planted-outer-dict', 'edges-simple', 'edges-digraph',
                                            'edges-bipartite'] + ['charges-' + v for v in sorted(CHARGE_VALUES)] +
